@@ -42,6 +42,17 @@ type Config struct {
 	GUID     [16]byte
 	RC       [16]byte // managed system random used in RAKP2
 	SIDC     uint32   // managed system session ID handed out
+	// Username, when CheckUser is set, is the only user the BMC knows: RAKP
+	// Message 1 for another name is answered with status 0Dh (unauthorized name).
+	Username  []byte
+	CheckUser bool
+	// FollowUnknownAlgs: the BMC completes RAKP for integrity / confidentiality
+	// algorithm numbers the reference does not implement (it announced them, so
+	// it knows them); packets of such a session are opaque.
+	FollowUnknownAlgs bool
+	// DistinctSIDs: each Open Session Request gets SIDC, SIDC+1, ... so several
+	// sessions can be active at once.
+	DistinctSIDs bool
 	// Announce, if set, is the algorithm triple placed in the Open Session
 	// Response instead of the requested one; the BMC then follows through
 	// with the announced algorithms.
@@ -111,6 +122,7 @@ func (rx *Rx) problem(f string, a ...any) {
 type BMC struct {
 	Cfg      Config
 	Sessions map[uint32]*Session // by SIDC
+	opened   uint32
 	Log      []*Rx
 	pending  *Session
 	// IVs seen from the console per session, for the no-reuse oracle
@@ -241,6 +253,10 @@ func (b *BMC) openSession(rx *Rx) {
 	s.HS.Suite = ann
 	s.HS.SIDM = sidm
 	s.HS.SIDC = b.Cfg.SIDC
+	if b.Cfg.DistinctSIDs {
+		s.HS.SIDC += b.opened
+		b.opened++
+	}
 	s.HS.GUIDC = b.Cfg.GUID
 	s.HS.RC = b.Cfg.RC
 	b.pending = s
@@ -312,6 +328,11 @@ func (b *BMC) rakp1(rx *Rx) {
 	copy(s.HS.RM[:], d[8:24])
 	s.HS.RoleM = d[24]
 	s.HS.Username = append([]byte{}, d[28:28+ul]...)
+	if b.Cfg.CheckUser && !bytes.Equal(s.HS.Username, b.Cfg.Username) {
+		rx.problem("RAKP Message 1 names user %q, the BMC only knows %q", s.HS.Username, b.Cfg.Username)
+		fail(0x0D)
+		return
+	}
 	code, err := s.HS.RAKP2Code(b.kuid())
 	if err != nil {
 		fail(0x11)
@@ -384,13 +405,24 @@ func (b *BMC) rakp3(rx *Rx) {
 	s.K2, _ = s.HS.Kn(sik, 2)
 	if s.HS.Suite.Integ != IntegNone {
 		f, err := Integrity(s.HS.Suite.Integ, s.K1)
+		n := IntegLen(s.HS.Suite.Integ)
 		if err != nil {
-			fail(0x11)
-			return
+			if !b.Cfg.FollowUnknownAlgs {
+				fail(0x11)
+				return
+			}
+			// an algorithm only this BMC knows (OEM range): RAKP does not depend
+			// on it, the session is activated; its AuthCodes are opaque to others
+			k1, alg := s.K1, s.HS.Suite.Integ
+			f = func(d []byte) []byte {
+				h := sha256.Sum256(append(append([]byte{alg}, k1...), d...))
+				return h[:12]
+			}
+			n = 12
 		}
-		s.Integ, s.IntegN = f, IntegLen(s.HS.Suite.Integ)
+		s.Integ, s.IntegN = f, n
 	}
-	if s.HS.Suite.Conf != ConfNone && s.HS.Suite.Conf != ConfAES128 {
+	if s.HS.Suite.Conf != ConfNone && s.HS.Suite.Conf != ConfAES128 && !b.Cfg.FollowUnknownAlgs {
 		fail(0x11)
 		return
 	}
